@@ -8,6 +8,14 @@ from kernelprop import *
 import oracles_prim
 
 
+def shape_streams(c, rng, tier, results):
+    """directed stories around one semaphore: acquisitions created by one task and polled / awaited / dropped by another,
+    racing release, close and try_acquire; schedule trees explored (almost) exhaustively"""
+    n = 300 if tier == "quick" else 5000
+    res = {"sem_shape": run_stream("c18_shape", gen.batch(rng.next(), "sem_shape", n, "c18s_"), "trace")}
+    return res, apply_oracle(res, oracles_prim.o_sems)
+
+
 def run(tier, seed):
     return run_kernel_prop("C18", tier, seed, ["ShuttleProofs.C18"], "ShuttleProofs.C18Audit", None,
                            ["ShuttleProofs/C18.lean"], oracles_prim.o_sems,
@@ -15,7 +23,7 @@ def run(tier, seed):
                            "acquire_removes_exactly_n, try_iff_immediate, fair_fifo, unfair_any_fitting_waiter_woken, unfair_losers_reblocked, cancel_safe, close_fails_all, wakes_current_poller — "
                            "all histories of the most-general client over the pure transition layer; wrappers ↔ kernel composition checked by the differential. "
                            "The async Acquire API (create/poll/drop from different tasks) enters the differential with the async IR (C17).",
-                           profiles=["sem", "locks", "stdmix", "once", "pl", "pl_upgrade"], per_quick=100, lemma_prefixes=("Sem",))
+                           profiles=["sem", "async_sem", "locks", "stdmix", "once", "pl", "pl_upgrade"], per_quick=100, lemma_prefixes=("Sem",), extra=shape_streams)
 
 
 def replay(path):
